@@ -4,6 +4,7 @@ package transport
 
 import (
 	"crypto/rand"
+	"sync"
 )
 
 // This file exists only under the "verif" build tag. It exposes read-only views
@@ -71,4 +72,22 @@ func (c *Client) VerifSessionAny() (VerifSessionView, bool) {
 		}
 	}
 	return VerifSessionView{}, false
+}
+
+// verifRawCerts lets a harness play a protocol-following but hostile client: the
+// certificate bytes it sets are sent (encrypted and authenticated like genuine
+// ones) instead of the serialised ClientConfig.Leaf / Intermediate.
+var verifRawCerts sync.Map // *Client -> [2][]byte
+
+// VerifSetRawCertificates overrides the certificate bytes this client presents.
+func (c *Client) VerifSetRawCertificates(leaf, intermediate []byte) {
+	verifRawCerts.Store(c, [2][]byte{leaf, intermediate})
+}
+
+func verifOverrideCerts(c *Client, leaf, intermediate []byte) ([]byte, []byte) {
+	if v, ok := verifRawCerts.Load(c); ok {
+		x := v.([2][]byte)
+		return x[0], x[1]
+	}
+	return leaf, intermediate
 }
